@@ -98,6 +98,30 @@ InverseStep(ev) ==
         ApproxM(DM!MatMul(ev.M, ev.Minv), IdentM(ev.d), 2, 2, Mul(MaxAbsM(ev.M), MaxAbsM(ev.Minv)))),
     {"C20.returned_inverse_is_inverse"})
 
+(* ---------- _pseudo_inverse_from_eig ---------- *)
+(* P = V diag(g) V^T with g_i = 1 / w_i when |w_i| > tol and 0 otherwise, tol = max(w) * n * eps unless given.        *)
+(* V = Vs / sqrt(s2) with Vs an exact scaled-orthogonal integer matrix, so Q = Vs^T P Vs = s2 * diag(g): checked      *)
+(* without any division (Q_ii w_i = s2 for kept eigenvalues).  An eigenvalue within a factor 2 of tol follows the code. *)
+MaxV(v) == LET RECURSIVE Mx(_) Mx(i) == IF i = Len(v) THEN v[i] ELSE LET r == Mx(i + 1) IN IF Lt(v[i], r) THEN r ELSE v[i] IN Mx(1)
+PinvStep(ev) ==
+  LET d    == Len(ev.w)
+      tol  == IF ev.tol_given THEN ev.tol ELSE Mul(Mul(MaxV(ev.w), FromInt(d)), Eps52)
+      Q    == TLCEval(DM!MatMul(DM!Transpose(ev.Vs), TLCEval(DM!MatMul(ev.P, ev.Vs))))   \* (forced: TLC evaluates function constructors lazily, per application)
+      kept(i)    == Gt(Abs(ev.w[i]), Add(tol, tol))
+      dropped(i) == Leq(Add(Abs(ev.w[i]), Abs(ev.w[i])), tol)
+      qs   == MaxAbsM(Q)
+      small(x) == Leq(Abs(x), Shift(qs, -3))          \* 2^-45 of the largest entry
+  IN
+  IF ~PS!IsScaledOrthogonal(ev.Vs, ev.s2) THEN R({"TRACE.bad_spectral_certificate"}, {})
+  ELSE R(G("C20.pseudo_inverse_inverts_eigenvalues_above_cutoff_and_zeroes_the_rest",
+           ev.outcome = "ok" /\ AllFinM(ev.P) /\
+           (\A i \in 1..d : \A j \in 1..d : i # j => small(Q[i][j])) /\
+           (\A i \in 1..d : (kept(i) => Leq(Abs(Sub(Mul(Q[i][i], ev.w[i]), ev.s2)),
+                                               \* 2^-30 relative + the rounding noise of the largest entries (2^-45 |Q|max) seen through w_i
+                                               Add(Shift(ev.s2, -2), Mul(Abs(ev.w[i]), Shift(qs, -3)))))
+                            /\ (dropped(i) => small(Q[i][i])))),
+         {"C20.pseudo_inverse_inverts_eigenvalues_above_cutoff_and_zeroes_the_rest"})
+
 (* ---------- _initialize_components ---------- *)
 InitComponentsStep(ev) ==
   CASE ev.init = "identity" ->
@@ -127,6 +151,7 @@ InitComponentsStep(ev) ==
 Step(ev) == CASE ev.ev = "FromMetric" -> FromMetricStep(ev)
               [] ev.ev = "InitMetric" -> InitMetricStep(ev)
               [] ev.ev = "Inverse" -> InverseStep(ev)
+              [] ev.ev = "PseudoInverse" -> PinvStep(ev)
               [] ev.ev = "InitComponents" -> InitComponentsStep(ev)
               [] OTHER -> R({"TRACE.unknown_event"}, {})
 Init == tid \in 1..Len(Traces) /\ l = 1 /\ fails = {} /\ ex = {}
